@@ -24,7 +24,11 @@ import gen_tracked  # noqa: E402
 KEY_ITER = 'iterable-argument-elements-not-wrapped'
 KEY_TUPLE = 'container-inside-tuple-value-not-wrapped'
 KEY_PARTIAL = 'exception-after-partial-change-not-notified'
+KEY_VOLSTALE = 'volatile-value-dropped-after-save:change-through-earlier-alias'
 WHAT = {
+    KEY_VOLSTALE: 'for a volatile Json/array attribute the value is dropped from the session after every save (_update_dbvals_); a wrapper obtained '
+                  'before the save is then no longer the attribute value, but changing it still sets the write bit: the next commit raises '
+                  'KeyError (attribute not in _vals_) or, if the attribute was read again in between, writes the value without the change',
     KEY_ITER: 'a dict/list handed to a tracked method inside an iterable that is not a list/dict (tuple, generator, dict view; for |= also a '
               'list of pairs) is stored unwrapped: after the next flush a change made to it in place is not written at commit',
     KEY_TUPLE: 'a dict/list inside a tuple stored in a Json value is never wrapped: after the next flush a change made to it in place is not written at commit',
@@ -134,10 +138,21 @@ class Env(object):
             data = Required(Json)
             arr = Optional(IntArray)
             sarr = Optional(StrArray)
+            vdata = Required(Json, volatile=True)           # volatile: `_bits_except_volatile_` is 0, `_bits_` is not
+            varr = Optional(IntArray, volatile=True)
+            vsarr = Optional(StrArray, volatile=True)
+            odata = Optional(Json, nullable=True)
+            ldata = Optional(Json, lazy=True)
+            larr = Optional(IntArray, lazy=True)
+            tag = Optional(str)                             # "another attribute"
         db.bind('sqlite', ':memory:', factory=Conn)
         db.generate_mapping(create_tables=True)
         self.db = db; self.E = E
-        self.akind = {'data': None, 'arr': 'iarr', 'sarr': 'sarr'}
+        self.akind = {'data': None, 'vdata': None, 'odata': None, 'ldata': None,
+                      'arr': 'iarr', 'varr': 'iarr', 'larr': 'iarr', 'sarr': 'sarr', 'vsarr': 'sarr'}
+        self.volatile = {'vdata', 'varr', 'vsarr'}
+        self.required = {'data': {}, 'vdata': {}}
+        self.ntag = 0
     def updates(self):
         return [s for s in self.statements if s.lstrip().upper().startswith('UPDATE')]
 
@@ -313,7 +328,8 @@ def execute(env, attr, init, prog, created=False, source=None):
     With `source` (a callable (mirror_root, mirror_vars) -> list of ops, or None when done) the program is generated while
     it runs (the generator sees the current state) and appended to `prog`."""
     E = env.E; res = Result(); akind = env.akind[attr]
-    other = {} if attr == 'data' else {'data': {}}
+    res.created = created; res.volatile = attr in env.volatile
+    other = {k: v for k, v in env.required.items() if k != attr}
     ds = db_session()
     st = {'e': None, 'vars': {}, 'mvars': {}}
     def rootval(): return getattr(st['e'], attr)
@@ -325,7 +341,7 @@ def execute(env, attr, init, prog, created=False, source=None):
         row = con.execute('select %s from "E" where id = ?' % attr, (st['pk'],)).fetchone()
         return None if row[0] is None else json.loads(row[0])
     def snap(err, after_flush=False):
-        s = {'err': err, 'dirty': dirty(), 'doc': to_T(rootval(), akind)}
+        s = {'err': err, 'dirty': dirty(), 'doc': to_T(rootval(), akind), 'status': st['e']._status_}
         if after_flush: s['db'] = to_T(raw_column(), akind, False)
         return s
     def check_persisted(at, where):
@@ -340,7 +356,7 @@ def execute(env, attr, init, prog, created=False, source=None):
         ds.__enter__()
         st['e'] = E(**dict(other, **{attr: dec(init)}))
         st['mirror'] = dec(init); st['pk'] = None
-        res.model_valid = False
+        res.init_T = to_T(dec(init), akind, False)
     else:
         with db_session:
             e0 = E(**dict(other, **{attr: dec(init)}))
@@ -359,6 +375,20 @@ def execute(env, attr, init, prog, created=False, source=None):
                 prog.extend(more)
             op = prog[idx]
             o = op['op']; res.executed = idx + 1
+            if st.get('quiet') and o in ('call', 'read', 'readattr', 'assign', 'other'):
+                # after a flush that was not followed by a look at the attribute: anything that touches the database may have to save
+                # the object first; a failure of that save is a failure to write what the session saw
+                try:
+                    if o == 'call' and op['var'] in st['vars']:
+                        do_call(st['vars'][op['var']], op); do_call(st['mvars'][op['var']], op)
+                        find_paths(st['mirror'], st['mvars'][op['var']])
+                        flush()
+                except Exception as ex:
+                    res.losses.append({'at': idx, 'kind': 'raised', 'observed': 'flush after the change raised %s: %s' % (type(ex).__name__, str(ex)[:80]), 'expected': canon(st['mirror'])})
+                    try: ds.__exit__(type(ex), ex, ex.__traceback__)
+                    except Exception: pass
+                    return res
+                continue
             if o == 'take':
                 try:
                     x = rootval(); y = st['mirror']
@@ -421,6 +451,12 @@ def execute(env, attr, init, prog, created=False, source=None):
                 after = (e._status_, e._wbits_, len(env.updates()))
                 if before != after: res.read_dirty.append({'at': idx, 'read': 'attribute', 'before': before, 'after': after})
                 continue
+            if o == 'other':
+                env.ntag += 1
+                st['e'].tag = 't%d' % env.ntag
+                if res.model_valid:
+                    res.model_ops.append({'t': 'other'}); res.snaps.append((len(res.model_ops) - 1, snap(None), idx))
+                continue
             if o == 'assign':
                 setattr(st['e'], attr, dec(op['v'])); st['mirror'] = dec(op['v'])
                 check_mirror(idx)
@@ -428,19 +464,47 @@ def execute(env, attr, init, prog, created=False, source=None):
                     res.model_ops.append({'t': 'assign', 'v': to_T(dec(op['v']), akind, False)}); res.snaps.append((len(res.model_ops) - 1, snap(None), idx))
                 continue
             if o in ('flush', 'commit'):
-                nupd = len(env.updates()); was_dirty = dirty()
-                if o == 'flush': flush()
-                else: commit()
+                nupd = len(env.updates()); was_dirty = dirty() or st['e']._status_ in ('modified', 'created')
+                saved = st['e']._status_ in ('modified', 'created')
+                insess = canon(rootval()) if not op.get('quiet') else canon(st['mirror'])
+                try:
+                    if o == 'flush': flush()
+                    else: commit()
+                except Exception as ex:
+                    # the save itself failed: what the session saw is not written
+                    res.losses.append({'at': idx, 'kind': 'raised', 'observed': '%s raised %s: %s' % (o, type(ex).__name__, str(ex)[:80]), 'expected': insess})
+                    res.model_valid = False
+                    try: ds.__exit__(type(ex), ex, ex.__traceback__)
+                    except Exception: pass
+                    return res
                 if st['pk'] is None: st['pk'] = st['e'].id
                 if not was_dirty and len(env.updates()) != nupd and not created:
                     res.read_dirty.append({'at': idx, 'read': 'UPDATE issued for a clean object', 'before': nupd, 'after': len(env.updates())})
+                if op.get('quiet'):
+                    res.model_valid = False      # no look at the attribute after this flush (a look would read a volatile value again)
+                    st['quiet'] = True
+                    continue
                 check_persisted(idx, o)
                 if res.model_valid:
-                    res.model_ops.append({'t': 'flush'}); res.snaps.append((len(res.model_ops) - 1, snap(None, True), idx))
+                    res.model_ops.append({'t': 'flush'})
+                if attr in env.volatile and saved:
+                    # `_update_dbvals_` dropped the volatile value; the look above has read it again: wrappers taken before are
+                    # no longer part of the value (mirror: a fresh copy; the old mirror objects stay with their variables)
+                    if canon(st['mirror']) != canon(rootval()):
+                        res.mirror_diffs.append({'at': idx, 'what': 'volatile value read again after the save', 'real': canon(rootval()), 'mirror': canon(st['mirror'])})
+                    st['mirror'] = copy.deepcopy(plain(rootval()))
+                    if res.model_valid: res.model_ops.append({'t': 'refresh', 'v': to_T(st['mirror'], akind, False)})
+                if res.model_valid:
+                    res.snaps.append((len(res.model_ops) - 1, snap(None, True), idx))
                 continue
             if o == 'reload':
                 insess = canon(rootval())
-                ds.__exit__(None, None, None)
+                try:
+                    ds.__exit__(None, None, None)
+                except Exception as ex:
+                    res.losses.append({'at': idx, 'kind': 'raised', 'observed': 'commit raised %s: %s' % (type(ex).__name__, str(ex)[:80]), 'expected': insess})
+                    res.model_valid = False
+                    return res
                 if st['pk'] is None: st['pk'] = st['e'].id
                 ds.__enter__()
                 st['e'] = E[st['pk']]; st['vars'] = {}; st['mvars'] = {}
@@ -453,8 +517,13 @@ def execute(env, attr, init, prog, created=False, source=None):
                 continue
             raise ValueError(o)
         # end of program = end of session
-        insess = canon(rootval())
-        ds.__exit__(None, None, None)
+        quiet_before = any(p_.get('quiet') for p_ in prog)
+        insess = canon(st['mirror']) if quiet_before else canon(rootval())
+        try:
+            ds.__exit__(None, None, None)
+        except Exception as ex:
+            res.losses.append({'at': len(prog), 'kind': 'raised', 'observed': 'commit raised %s: %s' % (type(ex).__name__, str(ex)[:80]), 'expected': insess})
+            return res
         if st['pk'] is None: st['pk'] = st['e'].id
         with db_session:
             loaded = canon(getattr(E[st['pk']], attr))
@@ -577,25 +646,32 @@ class Gen(object):
             if n == 'eq': r['v'] = enc(plain(y)) if rng.random() < 0.5 else self.value()
         return r
 
-def random_program(env, rng, attr, nops, danger):
+def random_program(env, rng, attr, nops, danger, created=False):
     """generate AND run a random program (the generator looks at the current mirror); returns (init, prog, result)"""
     g = Gen(rng, attr, danger)
     akind = env.akind[attr]
-    if attr == 'data': init = enc(rand_doc(rng))
-    elif attr == 'arr': init = [rng.choice([0, 1, 2, 5, -3]) for _ in range(rng.choice([0, 1, 3, 5]))]
+    if akind is None: init = enc(rand_doc(rng))
+    elif akind == 'iarr': init = [rng.choice([0, 1, 2, 5, -3]) for _ in range(rng.choice([0, 1, 3, 5]))]
     else: init = [rng.choice(['a', 'b', '', 'zz']) for _ in range(rng.choice([0, 1, 3, 5]))]
+    if created and akind is None: init = enc(json.loads(json.dumps(plain(dec(init)))))     # (no tuples in rand_doc anyway)
     left = [nops]
+    stale = set()          # volatile attribute: variables bound before the last save no longer refer into the value
     def source(root, mvars):
+        ops = source1(root, mvars)
+        if ops and attr in env.volatile and any(o['op'] in ('flush', 'commit') for o in ops): stale.update(mvars)
+        if ops and any(o['op'] == 'reload' for o in ops): stale.clear()
+        return ops
+    def source1(root, mvars):
         while left[0] > 0:
             left[0] -= 1
             r = rng.random()
             conts = containers(root)
             if r < 0.10 or not conts:
-                o = rng.choice(['flush', 'flush', 'commit', 'reload', 'assign', 'readattr'])
-                if o == 'assign': return [{'op': 'assign', 'v': enc(rand_doc(rng)) if attr == 'data' else init}]
+                o = rng.choice(['flush', 'flush', 'commit', 'reload', 'assign', 'readattr', 'other', 'other'])
+                if o == 'assign': return [{'op': 'assign', 'v': enc(rand_doc(rng)) if akind is None else init}]
                 return [{'op': o}]
             ops = []
-            live = sorted(v for v in mvars if isinstance(mvars[v], (list, dict)))
+            live = sorted(v for v in mvars if isinstance(mvars[v], (list, dict)) and v not in stale)
             if live and rng.random() < 0.4:
                 var = rng.choice(live); y = mvars[var]
             else:
@@ -609,7 +685,7 @@ def random_program(env, rng, attr, nops, danger):
             return ops + [op]
         return None
     prog = []
-    res = execute(env, attr, init, prog, source=source)
+    res = execute(env, attr, init, prog, created=created, source=source)
     return init, prog, res
 
 # ---------------------------------------------------------------------------------------------------------------------
@@ -656,8 +732,9 @@ def report_result(ctx, env, attr, init, prog, res, facts, created=False, label='
     if res.losses:
         small = shrink(env, attr, init, prog, created)
         r2 = execute(env, attr, init, small, created)
-        key = KEY_PARTIAL if r2.partial else classify(small, facts['iterUnwrapped'])
         loss = (r2.losses or res.losses)[0]
+        stale = attr in env.volatile and any(o['op'] in ('flush', 'commit') for o in small) and (loss['kind'] == 'raised' or any(o.get('quiet') for o in small))
+        key = KEY_VOLSTALE if stale else (KEY_PARTIAL if r2.partial else classify(small, facts['iterUnwrapped']))
         ctx.violation(WHAT.get(key, 'a change made in place to a Json/array value is missing after the commit'),
                       {'attr': attr, 'init': init, 'program': small, 'created_in_same_session': created, 'found_by': label},
                       observed=loss['observed'], expected=loss['expected'], key='C28:' + key)
@@ -704,7 +781,7 @@ def compare_model(ctx, batch, env=None, facts=None):
     """batch: list of (attr, init, prog, res) with res.model_ops / res.snaps; one driver call"""
     if not ctx.driver.ok:
         ctx.note('driver unavailable: model correspondence skipped'); return
-    reqs = [{'op': 'run', 'db': res.init_T, 'ops': res.model_ops} for _, _, _, res in batch]
+    reqs = [{'op': 'run', 'db': res.init_T, 'ops': res.model_ops, 'created': res.created, 'volatile': res.volatile} for _, _, _, res in batch]
     outs = ctx.driver('C28', reqs)
     for (attr, init, prog, res), out in zip(batch, outs):
         if 'driver_error' in out:
@@ -718,8 +795,8 @@ def compare_model(ctx, batch, env=None, facts=None):
             if m['allW']: ctx.count('model:Inv_wrapped holds')
             else: ctx.count('model:Inv_wrapped broken (unwrapped container present)')
             if not out['argsW'][mi]: ctx.count('model:guard argsW false')
-            got = {'err': s['err'], 'dirty': s['dirty'], 'doc': s['doc']}
-            exp = {'err': m['err'], 'dirty': m['dirty'], 'doc': strip_keys(m['doc'])}
+            got = {'err': s['err'], 'dirty': s['dirty'], 'status': s['status'], 'doc': s['doc']}
+            exp = {'err': m['err'], 'dirty': m['dirty'], 'status': m['status'], 'doc': strip_keys(m['doc'])}
             if m['err']: ctx.count('model-err:' + m['err'])
             if 'db' in s:
                 got['db'] = sort_T(s['db']); exp['db'] = sort_T(strip_keys(m['db']))
@@ -843,6 +920,16 @@ def witness_programs():
     # detached wrapper
     out.append(('detached', 'data', DOC, [{'op': 'take', 'var': 'x', 'path': ['l', 1]}, {'op': 'take', 'var': 'r', 'path': ['l']},
                 {'op': 'call', 't': 'lmut', 'n': 'delitem', 'var': 'r', 'i': 1}, {'op': 'flush'}, {'op': 'call', 't': 'lmut', 'n': 'append', 'var': 'x', 'v': 9}, {'op': 'flush'}], False))
+    # the object is already modified through another attribute when the value is changed in place; and after that UPDATE
+    out.append(('other attribute, then change', 'data', DOC, [{'op': 'other'}, {'op': 'take', 'var': 'y', 'path': ['l', 1, 1]}, {'op': 'call', 't': 'lmut', 'n': 'append', 'var': 'y', 'v': 3}], False))
+    out.append(('other attribute, flush, then change', 'data', DOC, [{'op': 'take', 'var': 'y', 'path': ['l', 1, 1]}, {'op': 'other'}, {'op': 'flush'},
+                {'op': 'call', 't': 'lmut', 'n': 'append', 'var': 'y', 'v': 3}, {'op': 'other'}, {'op': 'commit'}, {'op': 'take', 'var': 'z', 'path': ['d']},
+                {'op': 'call', 't': 'dmut', 'n': 'delitem', 'var': 'z', 'key': 'p'}], False))
+    # volatile attribute: an alias taken before a save, used after it, the attribute not looked at in between
+    out.append(('volatile: alias from before the flush', 'vdata', DOC, [{'op': 'take', 'var': 'y', 'path': ['l', 1, 1]}, {'op': 'call', 't': 'lmut', 'n': 'append', 'var': 'y', 'v': 3},
+                {'op': 'flush', 'quiet': True}, {'op': 'call', 't': 'lmut', 'n': 'append', 'var': 'y', 'v': 4}], False))
+    # everything once more on the volatile attribute
+    out += [(name + ' [volatile]', 'vdata', init, prog, created) for name, attr, init, prog, created in out if attr == 'data']
     return out
 
 def sweep_programs():
@@ -857,38 +944,56 @@ def sweep_programs():
     L = [4, 9]
     D = {'$d': [['a', 1]]}
     out = []
-    for depth, wrap in ((0, lambda x: x), (1, lambda x: {'$d': [['w', x]]}), (2, lambda x: [0, {'$d': [['w', x]]}])):
-        path = [[], ['w'], [1, 'w']][depth]
-        for c in lcalls:
-            out.append(('list.%s@%d' % (c['n'], depth), 'data', wrap(L), [{'op': 'take', 'var': 'x', 'path': path}, dict(c, op='call', t='lmut', var='x')], False))
-        for c in dcalls:
-            out.append(('dict.%s@%d' % (c['n'], depth), 'data', wrap(D), [{'op': 'take', 'var': 'x', 'path': path}, dict(c, op='call', t='dmut', var='x')], False))
+    # the status of the object when the change is made: loaded / modified through another attribute / updated / created / inserted
+    PRE = {'loaded': ([], False), 'modified': ([{'op': 'other'}], False), 'updated': ([{'op': 'other'}, {'op': 'flush'}], False),
+           'created': ([], True), 'inserted': ([{'op': 'flush'}], True)}
+    def variants(attr, plain_attr):
+        yield 'loaded', (0, 1, 2)
+        if attr in ('data', 'vdata', 'varr', 'arr'):
+            for st in ('modified', 'updated', 'created', 'inserted'): yield st, (1,)
+    for attr in ('data', 'vdata', 'odata', 'ldata'):
+        for st, depths in variants(attr, 'data'):
+            pre, created = PRE[st]
+            for depth, wrap in ((0, lambda x: x), (1, lambda x: {'$d': [['w', x]]}), (2, lambda x: [0, {'$d': [['w', x]]}])):
+                if depth not in depths: continue
+                path = [[], ['w'], [1, 'w']][depth]
+                for c in lcalls:
+                    out.append(('%s[%s] list.%s@%d' % (attr, st, c['n'], depth), attr, wrap(L), pre + [{'op': 'take', 'var': 'x', 'path': path}, dict(c, op='call', t='lmut', var='x')], created))
+                for c in dcalls:
+                    out.append(('%s[%s] dict.%s@%d' % (attr, st, c['n'], depth), attr, wrap(D), pre + [{'op': 'take', 'var': 'x', 'path': path}, dict(c, op='call', t='dmut', var='x')], created))
     acalls = [{'n': 'setitem', 'i': 0, 'v': 7}, {'n': 'delitem', 'i': -1}, {'n': 'delslice', 'a': 0, 'b': 1}, {'n': 'append', 'v': 1}, {'n': 'extend', 'k': 'tuple', 'vs': [3, 4]},
               {'n': 'insert', 'i': 0, 'v': 5}, {'n': 'pop', 'i': 0}, {'n': 'remove', 'v': 4}, {'n': 'reverse'}, {'n': 'sort', 'key': None, 'rev': True}, {'n': 'clear'},
               {'n': 'iadd', 'k': 'gen', 'vs': [3]}, {'n': 'imul', 'c': 2}, {'n': 'delslice_step', 'a': None, 'b': None, 's': 2}, {'n': 'append', 'v': 'x'},
               {'n': 'setslice', 'a': 0, 'b': 1, 'k': 'list', 'vs': [1]}, {'n': 'iadd', 'k': 'list', 'vs': ['x']}]
-    for c in acalls:
-        out.append(('IntArray.%s' % c['n'], 'arr', [4, 9, 4], [{'op': 'take', 'var': 'x', 'path': []}, dict(c, op='call', t='lmut', var='x')], False))
-    for c in acalls:
-        c2 = dict(c)
-        if 'v' in c2: c2['v'] = {7: 'q', 1: 'r', 5: 's', 4: 'a', 'x': 3}[c2['v']]
-        if 'vs' in c2: c2['vs'] = [{3: 'c', 4: 'd', 1: 'e', 'x': 2}[v] for v in c2['vs']]
-        out.append(('StrArray.%s' % c['n'], 'sarr', ['a', 'b', 'a'], [{'op': 'take', 'var': 'x', 'path': []}, dict(c2, op='call', t='lmut', var='x')], False))
+    for attr in ('arr', 'varr', 'larr'):
+        for st, depths in variants(attr, 'arr'):
+            pre, created = PRE[st]
+            for c in acalls:
+                out.append(('%s[%s] IntArray.%s' % (attr, st, c['n']), attr, [4, 9, 4], pre + [{'op': 'take', 'var': 'x', 'path': []}, dict(c, op='call', t='lmut', var='x')], created))
+    for attr in ('sarr', 'vsarr'):
+        for c in acalls:
+            c2 = dict(c)
+            if 'v' in c2: c2['v'] = {7: 'q', 1: 'r', 5: 's', 4: 'a', 'x': 3}[c2['v']]
+            if 'vs' in c2: c2['vs'] = [{3: 'c', 4: 'd', 1: 'e', 'x': 2}[v] for v in c2['vs']]
+            out.append(('%s StrArray.%s' % (attr, c['n']), attr, ['a', 'b', 'a'], [{'op': 'take', 'var': 'x', 'path': []}, dict(c2, op='call', t='lmut', var='x')], False))
     return out
 
 def read_sweep(ctx, env):
     """every non-mutating name of dir(list)/dir(dict) called on the real wrappers: status, wbits and UPDATE count must not move"""
     E = env.E
     with db_session:
-        e = E(data={'l': [3, [1], {'a': 1}], 'd': {'a': 1, 'b': [2]}}, arr=[3, 1, 2], sarr=['b', 'a']); commit(); pk = e.id
-    for where, battery in (('list', LIST_BATTERY), ('dict', DICT_BATTERY), ('arr', LIST_BATTERY), ('sarr', LIST_BATTERY)):
-        base = dict if where == 'dict' else list
+        doc = {'l': [3, [1], {'a': 1}], 'd': {'a': 1, 'b': [2]}}
+        e = E(data=doc, vdata=copy.deepcopy(doc), ldata=copy.deepcopy(doc), arr=[3, 1, 2], sarr=['b', 'a'], varr=[3, 1, 2]); commit(); pk = e.id
+    for where, battery in (('list', LIST_BATTERY), ('dict', DICT_BATTERY), ('arr', LIST_BATTERY), ('sarr', LIST_BATTERY),
+                           ('vlist', LIST_BATTERY), ('vdict', DICT_BATTERY), ('varr', LIST_BATTERY), ('llist', LIST_BATTERY)):
+        base = dict if where in ('dict', 'vdict') else list
         live = classify_methods(base, {'a': 1, 'b': 2} if base is dict else [3, 1, 2], battery)
         for name, mut in sorted(live.items()):
             if mut or name in ('__init__', '__setattr__', '__delattr__', '__class__', '__new__', '__init_subclass__', '__subclasshook__'): continue
             with db_session:
                 e = E[pk]
-                x = {'list': lambda: e.data['l'], 'dict': lambda: e.data['d'], 'arr': lambda: e.arr, 'sarr': lambda: e.sarr}[where]()
+                x = {'list': lambda: e.data['l'], 'dict': lambda: e.data['d'], 'arr': lambda: e.arr, 'sarr': lambda: e.sarr,
+                     'vlist': lambda: e.vdata['l'], 'vdict': lambda: e.vdata['d'], 'varr': lambda: e.varr, 'llist': lambda: e.ldata['l']}[where]()
                 nupd = len(env.updates())
                 for args in battery:
                     try:
@@ -914,7 +1019,7 @@ def run_fixed(ctx, env, facts, progs, label):
         ctx.count('%s:%s' % (label, 'lost' if res.losses else 'persisted'))
         report_result(ctx, env, attr, init, prog, res, facts, created, label='%s %s' % (label, name))
         if res.model_valid and res.model_ops: batch.append((attr, init, prog, res))
-        if label == 'witness' and not created:
+        if label == 'witness' and not created and not any(o.get('quiet') for o in prog):
             # the model's verdict for the witness must be the code's verdict
             ctx.extra.setdefault('witnesses', {})[name] = 'lost' if res.losses else 'persisted'
     compare_model(ctx, batch, env, facts)
@@ -937,10 +1042,11 @@ def run(ctx):
     nprog = ctx.scale(260, 8000)
     batch = []
     for i in range(nprog):
-        attr = rng.choice(['data'] * 8 + ['arr', 'sarr'])
+        attr = rng.choice(['data'] * 4 + ['vdata'] * 4 + ['odata', 'ldata', 'arr', 'sarr', 'varr', 'vsarr', 'larr'])
         danger = rng.choice([0.0, 0.0, 0.15, 0.5])
-        init, prog, res = random_program(env, rng, attr, rng.choice([4, 8, 14, 24]), danger)
-        ctx.case([attr, init, [(o.get('n') or o.get('r') or o['op']) for o in prog]], kind='random:' + attr)
+        created = rng.random() < 0.12
+        init, prog, res = random_program(env, rng, attr, rng.choice([4, 8, 14, 24]), danger, created)
+        ctx.case([attr, created, init, [(o.get('n') or o.get('r') or o['op']) for o in prog]], kind='random:' + attr + (':created' if created else ''))
         for o in prog:
             if o['op'] == 'call': ctx.count('op:%s.%s%s' % (o['t'], o['n'], (':' + str(o['k'])) if 'k' in o else ''))
             elif o['op'] == 'read': ctx.count('read:' + o['r'])
@@ -949,7 +1055,7 @@ def run(ctx):
         if res.partial: ctx.count('program:partial-failure (outside the model)')
         if res.stopped: ctx.count('program:stopped after an exception with a different partial effect than plain Python')
         if not res.model_valid: ctx.count('program:model comparison stopped early')
-        report_result(ctx, env, attr, init, prog, res, facts)
+        report_result(ctx, env, attr, init, prog, res, facts, created)
         if res.model_ops: batch.append((attr, init, prog, res))
         if len(batch) >= 400:
             compare_model(ctx, batch, env, facts); batch = []
